@@ -466,9 +466,38 @@ def discharge_all(obs, use_cvc5):
     nproc = int(os.environ.get("PYVC_OB_PROCS", "1"))
     failed = _mp.get_context("fork").Value("i", 0)      # shared by the forked children of this unit
 
-    def one(ob):
+    def solve(ob):
         with _Slot():
-            d = discharge(ob, use_cvc5, quick=failed.value >= FAIL_FAST)
+            return discharge(ob, use_cvc5, quick=failed.value >= FAIL_FAST)
+
+    def one(ob):
+        """every obligation is solved in a process of its own, forked from the state right after the unit's verification conditions
+        were generated: z3's behaviour then does not depend on which obligations the same worker happened to solve before
+        (that dependence made a few obligations flip between 0.3 s and a timeout)"""
+        if os.environ.get("PYVC_FORK_PER_OB", "1") != "1":
+            d = solve(ob)
+        else:
+            r, w = os.pipe()
+            pid = os.fork()
+            if pid == 0:
+                os.close(r)
+                try:
+                    try:
+                        d = solve(ob)
+                    except Exception as e:      # pragma: no cover
+                        d = dict(verdict="timeout", backend="z3", time=0.0, detail="checker error: " + repr(e))
+                    with os.fdopen(w, "w") as f:
+                        _json.dump(d, f)
+                finally:
+                    os._exit(0)
+            os.close(w)
+            with os.fdopen(r) as f:
+                data = f.read()
+            os.waitpid(pid, 0)
+            try:
+                d = _json.loads(data)
+            except Exception:
+                d = dict(verdict="timeout", backend="z3", time=0.0, detail="solver process produced no verdict")
         if d["verdict"] != "discharged":
             with failed.get_lock():
                 failed.value += 1
